@@ -322,6 +322,18 @@ func buildSweep(run *ev.Run) []Config {
 		for i := 0; i < 8; i++ {
 			add(watermarkConfig(rng, []int{1, 2}[i%2], []int{2, 8, 8, 64}[i%4], []string{"1ms", "10ms", "50ms", "1ms"}[i%4], []string{"5ms", "5ms", "20ms", "1ms"}[i%4], i >= 6, 0))
 		}
+		// 1 config: handlers gated for 6.5 s after Stop (costs 6.5 s of wall, in parallel with the rest)
+		add(longGateConfig(rng, 1, 2, 0))
+		// 12 configs: queue length 0 and 1 x workers 1, 2, 4, two bursts each
+		n = 0
+		for _, w := range []int{1, 2, 4} {
+			for _, q := range []int{0, 1} {
+				for _, bc := range []string{"q+w+1", "2(q+w)"} {
+					add(shortQueueConfig(rng, w, q, bc, sweepDur[n%len(sweepDur)], 0))
+					n++
+				}
+			}
+		}
 		// 16 configs: every w x q once with a queue group and a duplicated subject
 		n = 0
 		for _, w := range sweepW {
@@ -459,6 +471,20 @@ func buildSweep(run *ev.Run) []Config {
 			}
 		}
 	}
+	// handlers gated for 6.5 s after Stop
+	for i, wq := range [][2]int{{1, 1}, {1, 8}, {2, 2}, {4, 0}} {
+		add(longGateConfig(rng, wq[0], wq[1], i))
+	}
+	// queue length 0 and 1
+	for _, w := range []int{1, 2, 4, 8} {
+		for _, q := range []int{0, 1} {
+			for _, bc := range bClasses {
+				for _, d := range sweepDur {
+					add(shortQueueConfig(rng, w, q, bc, d, 0))
+				}
+			}
+		}
+	}
 	// queue group with a duplicated subject
 	for _, w := range sweepW {
 		for _, q := range sweepQ {
@@ -528,6 +554,27 @@ func dupSubjConfig(rng *rand.Rand, w, q int, bclass, dur string, rep int) Config
 	c.K = pickK(rng, c)
 	c.QGroup, c.DupSubj = true, true
 	c.DrainTO = ""
+	return c
+}
+
+// shortQueueConfig: queue length 0 (direct hand-off from the NATS callback to
+// a worker) and 1, workers 1, 2, 4.
+func shortQueueConfig(rng *rand.Rand, w, q int, bclass, dur string, rep int) Config {
+	c := fill(rng, Config{W: w, Q: q, BClass: bclass, Dur: dur, Share: rng.Intn(2) == 0, Rep: rep})
+	c.K = pickK(rng, c)
+	c.DrainTO = ""
+	return c
+}
+
+// longGateConfig: the accepted requests (k = q+w, all in the work queue or
+// with a worker) stay gated for 6.5 s after Stop was called - longer than any
+// internal 5 s watermark: Serve must not return while they are unanswered.
+func longGateConfig(rng *rand.Rand, w, q, rep int) Config {
+	c := fill(rng, Config{W: w, Q: q, BClass: "q+w", Dur: "gate", Rep: rep})
+	c.K = c.B
+	c.Rest = "after"
+	c.GateUs = 6500000
+	c.Bad, c.DrainTO, c.HWM, c.StopUs = 0, "", "", 0
 	return c
 }
 
@@ -776,7 +823,7 @@ var panicNorm = regexp.MustCompile(`0x[0-9a-fA-F]+|\d+`)
 
 func runC20(tier string, args []string) int {
 	run := ev.New("C20", tier, "exploration")
-	run.Rule("configuration sweep workers {1,2,4,8} x queue {1,2,8,64} x burst {1,q,q+w,q+w+1,2(q+w),10(q+w)} x handler {0,1ms,5ms,PRNG 0-3ms,gate released after Stop is called} x position of Stop (incl. position 0 issued right after `go Serve()` without waiting for the subscription, with no / Gosched / 1-200us yields so that Stop is called both before and after Serve is parked; otherwise k of b double-flushed into the server's NATS client first; the rest published concurrently with Stop and/or after it returned; one extra request after Stop returned in every scenario) x caller of Stop (harness goroutine, or a worker goroutine: the processor / started / finished event handler of a shutdown request placed inside the double-flushed stream, wherever the drain can finish without that worker) x subjects 1-4 with traffic on a subset (idle subscriptions next to busy ones, incl. full queue with exactly as many requests parked in the NATS client as there are idle subjects) x WithHighWatermark {default, 1ms, 10ms, 50ms} incl. queue waits beyond it, the library's default request-received handler always in effect (wrapped by the counter, or left to the builder) x queue group or none, subject list naming a subject twice (with a queue group) x late requests after Stop AND Serve returned in every scenario (the stopped server takes nothing off NATS: no request-received event, no processing, and a probe member of the queue group subscribed after Serve returned sees every late request) x failing requests (>= worker count: message shorter than the frame size, bad header version, truncated header, processor error) interleaved in front of well-formed ones x fault 'server connection lost right before Stop' (NoReconnect; TCP cut through a relay / private broker shut down; k <= q+w requests in the work queue; replies not judged, processing before Serve returns is) x server connection option DrainTimeout {default, bare Options literal = 0, 1ms, 50ms} incl. backlogs that outlast it x server connection shared with an unrelated subscription or not x 1-2 subjects x arrival pattern; every scenario runs a real FNatsServer against an embedded nats-server in a child process; distinct = (w, q, burst class, handler mode, stop-position class, rest mode, sharing, subjects)")
+	run.Rule("configuration sweep workers {1,2,4,8} x queue {1,2,8,64} x burst {1,q,q+w,q+w+1,2(q+w),10(q+w)} x handler {0,1ms,5ms,PRNG 0-3ms,gate released after Stop is called} x position of Stop (incl. position 0 issued right after `go Serve()` without waiting for the subscription, with no / Gosched / 1-200us yields so that Stop is called both before and after Serve is parked; otherwise k of b double-flushed into the server's NATS client first; the rest published concurrently with Stop and/or after it returned; one extra request after Stop returned in every scenario) x caller of Stop (harness goroutine, or a worker goroutine: the processor / started / finished event handler of a shutdown request placed inside the double-flushed stream, wherever the drain can finish without that worker) x subjects 1-4 with traffic on a subset (idle subscriptions next to busy ones, incl. full queue with exactly as many requests parked in the NATS client as there are idle subjects) x WithHighWatermark {default, 1ms, 10ms, 50ms} incl. queue waits beyond it, the library's default request-received handler always in effect (wrapped by the counter, or left to the builder) x queue length also 0 and 1 (workers 1, 2, 4, 8) x handlers gated for 6.5 s after Stop was called (Serve must not return before they are answered) x queue group or none, subject list naming a subject twice (with a queue group) x late requests after Stop AND Serve returned in every scenario (the stopped server takes nothing off NATS: no request-received event, no processing, and a probe member of the queue group subscribed after Serve returned sees every late request) x failing requests (>= worker count: message shorter than the frame size, bad header version, truncated header, processor error) interleaved in front of well-formed ones x fault 'server connection lost right before Stop' (NoReconnect; TCP cut through a relay / private broker shut down; k <= q+w requests in the work queue; replies not judged, processing before Serve returns is) x server connection option DrainTimeout {default, bare Options literal = 0, 1ms, 50ms} incl. backlogs that outlast it x server connection shared with an unrelated subscription or not x 1-2 subjects x arrival pattern; every scenario runs a real FNatsServer against an embedded nats-server in a child process; distinct = (w, q, burst class, handler mode, stop-position class, rest mode, sharing, subjects)")
 	run.Assume("embedded nats-server v2 routes a PUB to the subscribers' outbound queues before it answers the publisher's PING, and a connection's PONG follows the MSGs queued before it (the double flush defines 'received before Stop', as the pinned TestShutdown does on one connection)")
 	run.Assume("nats.go SubscribeSync/Pending/NextMsg on the collector connection and Flush are correct (reply collector)")
 	run.Assume("the recording processor is the only FProcessor; handler durations are finite (the gate is opened after Stop is called, never after it returns)")
@@ -1015,6 +1062,12 @@ func runC20(tier string, args []string) int {
 		if r.Late > 0 {
 			run.Add("late_requests_after_stop_and_serve_returned", r.Late)
 			run.Add("late_requests_seen_by_queue_group_probe", r.LateAtProbe)
+		}
+		if r.Config.Q == 0 {
+			run.Add("scenarios_queue_length_0", 1)
+		}
+		if r.Config.Dur == "gate" && r.Config.GateUs >= 5000000 {
+			run.Add("scenarios_handlers_gated_longer_than_5s_after_stop", 1)
 		}
 		if r.Config.QGroup {
 			run.Add("scenarios_with_queue_group", 1)
